@@ -444,6 +444,10 @@ impl BytecodeInterpreter {
             } => {
                 self.vm.begin_function(name);
 
+                // Register the function before compiling its body, so that the body can
+                // refer to the function itself as a value (e.g. to pass it on recursively).
+                self.functions.insert(name.to_compact_string(), false);
+
                 self.locals.push(vec![]);
 
                 let current_depth = self.current_depth();
@@ -464,8 +468,6 @@ impl BytecodeInterpreter {
                 self.locals.pop();
 
                 self.vm.end_function();
-
-                self.functions.insert(name.to_compact_string(), false);
             }
             Statement::DefineFunction {
                 function_name: name,
